@@ -73,7 +73,8 @@ RET = {
     "np.linalg.inv": "arr", "np.exp": "same", "np.max": "real", "np.min": "real", "np.linalg.matrix_rank": "real", "np.outer": "arr", "np.dot": "arr", "np.matmul": "arr",
     "np.eye": "arr", "np.identity": "arr", "np.diag": "arr", "np.cos": "same", "np.sin": "same", "np.array": "same", "np.asarray": "same",
 }
-PRED = {"is_density", "is_positive_semidefinite", "is_hermitian", "is_square", "is_unitary", "is_pure", "np.allclose", "np.isclose", "np.all", "np.any", "isinstance", "is_positive_definite"}
+PRED = {"is_density", "is_positive_semidefinite", "is_hermitian", "is_square", "is_unitary", "is_pure", "np.all", "np.any", "isinstance", "is_positive_definite"}
+CLOSE_DEFAULTS = {"rtol": 1e-05, "atol": 1e-08}
 
 
 def const_repr(v):
@@ -135,6 +136,12 @@ class TermEngine(Engine):
         raise Unsupported("comparison of non-scalars")
 
     def ev(self, e, env, pc):
+        if isinstance(e, ast.Constant) and isinstance(e.value, complex):
+            return uf("complex-constant[%r]" % (e.value,), z3.RealSort())
+        if isinstance(e, ast.Call) and isinstance(e.func, ast.Name) and e.func.id == "len" and len(e.args) == 1:
+            v = self.ev(e.args[0], env, pc)
+            if is_arr(v):
+                return uf("len", z3.RealSort(), v)
         if isinstance(e, ast.Name) and isinstance(env.get(e.id), Poison):
             raise Unsupported("use of uninterpreted value: " + env[e.id].why)
         if isinstance(e, ast.Attribute) and ast.unparse(e) == "np.finfo(float).eps":
@@ -246,6 +253,22 @@ class TermEngine(Engine):
                 raise Unsupported("non-constant keyword %s" % k.arg)
             else:
                 kws.append("%s=%s" % (k.arg, c))
+        if name in ("np.allclose", "np.isclose"):
+            # numpy's documented signature: (a, b, rtol=1e-05, atol=1e-08); applied by parameter name with defaults made explicit
+            vals = {}
+            pos = ["a", "b", "rtol", "atol"]
+            for pn, a in zip(pos, args):
+                vals[pn] = a
+            for pn, v in kw_terms:
+                vals[pn] = v
+            for item in kws:
+                pn, c = item.split("=", 1)
+                vals[pn] = float(c)
+            for pn, dv in CLOSE_DEFAULTS.items():
+                vals.setdefault(pn, dv)
+            if "a" not in vals or "b" not in vals or set(vals) - set(pos):
+                raise Unsupported("unexpected arguments of %s" % name)
+            return uf(name, z3.BoolSort(), vals["a"], vals["b"], vals["rtol"], vals["atol"])
         binder = getattr(self.c, "bind_callee", None)
         if binder is not None:
             r = binder(self, name, args, kw_terms, kws)
